@@ -60,6 +60,10 @@ def gen(seed, tier, insts, replay=None):
                     variants = [dict()] + ([dict(pv=p) for p in {1, 2, max(pe, 1)}] if ssp == 'D' else [])
                 else: variants = [dict()]
                 for v in variants:
+                    # every value of a line, and the span of the mapping it denotes, must be representable in BOTH index types
+                    st_ = spec_strides(sk, ssp, es, v.get('str'), v.get('pv')); Hm = min(C.hi(t), C.hi(u))
+                    if max(st_ + es + [0]) > Hm or 1 + sum((max(e, 1) - 1) * s for e, s in zip(es, st_)) > Hm: continue
+                    if sk in ('lpad', 'rpad') and r >= 2 and (st_[1] if sk == 'lpad' else st_[-2]) * C.prod([max(e, 1) for e in (es[1:] if sk == 'lpad' else es[:-1])]) > Hm: continue
                     l = G.line('conv', i) + ' ext=%s' % C.fmt(es) + (' str=%s' % C.fmt(v['str']) if 'str' in v else '') + (' pv=%d' % v['pv'] if 'pv' in v else '') + ' idx=%s' % idx
                     conv.append((l, dict(inst=list(i), ext=es, **v)))
                     # comparison operand of the target type
